@@ -47,7 +47,7 @@ def reject_case(draw):
                 inmask=None if inmask is None else [draw(st.integers(0, 5)) != 0 for _ in range(n)],
                 prev=None if prev is None else [draw(st.integers(0, 5)) != 0 for _ in range(n)],
                 sticky=draw(st.booleans()), zero_w=[draw(st.integers(0, 7)) == 0 for _ in range(n)], seed=draw(st.integers(0, 999)),
-                quantised=draw(st.booleans()), int_outmask=draw(st.sampled_from([False, False, True])))
+                quantised=draw(st.booleans()), counts=draw(st.booleans()), int_outmask=draw(st.sampled_from([False, False, True])))
 
 
 def dilate(mask, k):
@@ -122,8 +122,15 @@ def reject_body(case):
             diff[i] = {'in': 0.5 * maxdev, 'hi': 2.0 * maxdev, 'lo': 2.0 * maxdev}.get(d, maxdev) * sgn       # the edge kinds sit exactly on the limit
             bad[i] = d in ('hi', 'lo')
         note_label('residual-exactly-on-maxdev')
+        if case.get('counts'):
+            # the same with photon counts: integer data and an integer-valued model, residuals 0, +-maxdev, +-2 maxdev
+            model = np.round(model * 4)
+            diff = np.where(np.abs(diff) == 0.5 * maxdev, 0.0, diff)
     data = (model + diff).reshape(shape)
     model = model.reshape(shape)
+    if case.get('quantised') and case.get('counts') and lims == ['maxdev'] and maxdev >= 1.0:
+        data = data.astype('i4')
+        note_label('integer-data')
     kw = dict(grow=case['grow'], sticky=case['sticky'])
     if 'lower' in lims:
         kw['lower'] = lower
